@@ -59,6 +59,7 @@ func confs(quick bool) []conf {
 		{name: "scorch-mem", scorch: true, itype: scorch.Name, kv: scorch.Name},
 		{name: "scorch-disk-nomerge", disk: true, scorch: true, itype: scorch.Name, kv: scorch.Name, cfg: cfgWith("scorchMergePlanOptions", bx.NoMergePlan)},
 		{name: "scorch-disk-aggressive", disk: true, scorch: true, itype: scorch.Name, kv: scorch.Name, cfg: cfgWith("scorchMergePlanOptions", bx.AggressiveMergePlan)},
+		{name: "scorch-disk-partial-merge", disk: true, scorch: true, itype: scorch.Name, kv: scorch.Name, cfg: cfgWith("scorchMergePlanOptions", bx.PartialMergePlan)},
 		{name: "scorch-disk-unsafe-2workers", disk: true, scorch: true, unsafe: true, itype: scorch.Name, kv: scorch.Name,
 			cfg: cfgWith("unsafe_batch", true, "scorchPersisterOptions", map[string]interface{}{"NumPersisterWorkers": 2, "MaxSizeInMemoryMergePerWorker": 1})},
 		{name: "upsidedown-gtreap", itype: upsidedown.Name, kv: gtreap.Name},
@@ -92,6 +93,22 @@ func (o op) String() string {
 	return o.batch.String()
 }
 
+// partialAlphabet: a small alphabet for the partial-merge configuration (a 3-document batch whose
+// segment stays behind with obsoleted documents while the small segments around it merge), explored
+// one level deeper than the general alphabet.
+func partialAlphabet() []op {
+	I := func(id string, v int) lww.Op { return lww.Op{Kind: "I", ID: id, V: v} }
+	D := func(id string) lww.Op { return lww.Op{Kind: "D", ID: id} }
+	bs := []lww.Batch{
+		{I("a", 1), I("b", 1), I("c", 1)}, {I("a", 2)}, {I("d", 1)}, {I("b", 2)}, {D("b")}, {I("c", 2), D("d")}, {I("zz", 1)},
+	}
+	var ops []op
+	for _, b := range bs {
+		ops = append(ops, op{batch: b})
+	}
+	return append(ops, op{layout: "reopen"})
+}
+
 func alphabet(quick bool) []op {
 	I := func(id string, v int) lww.Op { return lww.Op{Kind: "I", ID: id, V: v} }
 	D := func(id string) lww.Op { return lww.Op{Kind: "D", ID: id} }
@@ -115,7 +132,7 @@ func alphabet(quick bool) []op {
 	return ops
 }
 
-var ids = []string{"a", "b", "zz", "never"}
+var ids = []string{"a", "b", "c", "d", "zz", "never"}
 var keys = []string{"k", "unused"}
 
 func Run(r *mc.Run) {
@@ -136,11 +153,15 @@ func Run(r *mc.Run) {
 			break
 		}
 		d := depth
-		if c.disk && r.Quick() && ci > 1 {
+		if c.disk && r.Quick() && ci > 2 {
 			d = depth - 1 // quick tier: on-disk variants one level shallower
 		}
+		cops := ops
+		if c.name == "scorch-disk-partial-merge" {
+			cops, d = partialAlphabet(), depth+1
+		}
 		t0 := time.Now()
-		st, tr := explore(r, c, ops, d)
+		st, tr := explore(r, c, cops, d)
 		r.Note("conf:"+c.name, map[string]any{"states": st, "transitions": tr, "depth": d, "wall_s": time.Since(t0).Seconds()})
 	}
 }
